@@ -137,6 +137,9 @@ type Server struct {
 	Name    string
 	release chan struct{}
 	once    sync.Once
+	// LateHook is called (on the session's goroutine) when a step with a "late" outcome is reached,
+	// before the delay starts: the moment at which the client is waiting for that reply.
+	LateHook func(step string)
 }
 
 // NewServer creates a server for one case.
@@ -539,6 +542,9 @@ func (s *Server) serve(rawConn net.Conn, implicitTLS bool, sess *Session) {
 				c.reply("this is not an SMTP reply")
 				return 0
 			case "late":
+				if s.LateHook != nil {
+					s.LateHook(step)
+				}
 				select {
 				case <-time.After(time.Duration(o.DelayMS) * time.Millisecond):
 				case <-s.release:
